@@ -563,6 +563,8 @@ class Executor:
             if attr == '__name__':
                 return obj.name
             raise Unsupported(f'attribute {attr} of closure')
+        if isinstance(obj, tuple) and attr in (getattr(type(obj), '_fields', None) or ()):
+            return getattr(obj, attr)            # field of a namedtuple record
         if isinstance(obj, (list, dict, set, str, tuple)) and not isinstance(obj, type):
             if not hasattr(obj, attr):
                 raise SymRaise(AttributeError, (attr,), origin=self.where(node))
@@ -868,6 +870,13 @@ class Executor:
             if args or kwargs:
                 raise SymRaise(TypeError, (f'unexpected arguments for {cls.__name__}',))
             return obj
+        if issubclass(cls, tuple) and isinstance(getattr(cls, '_fields', None), tuple) and '__init__' not in cls.__dict__ and \
+                all(isinstance(getattr(cls, f_, None), property) or hasattr(getattr(cls, f_, None), '__get__') for f_ in cls._fields):
+            # collections.namedtuple / typing.NamedTuple: an immutable record; the generated constructor only stores its arguments, whatever they are
+            try:
+                return cls(*args, **kwargs)
+            except TypeError as e:
+                raise SymRaise(TypeError, (str(e),), origin=self.where(node) if node is not None else None)
         if self.is_repo_callable(cls):
             obj = SymObj({cls}, self.fresh_name(cls.__name__), prov='fresh')
             obj.closed = True
